@@ -50,6 +50,9 @@ func (bl *Bases) UnmarshalXML(d *xml.Decoder, start xml.StartElement) error {
 		if !ok {
 			return fmt.Errorf("Bases element %d was not a base 10 integer", i)
 		}
+		if b.Sign() < 0 {
+			return fmt.Errorf("Bases element %d is negative", i)
+		}
 		arr[i] = b
 	}
 
